@@ -103,7 +103,8 @@ class Harvester(ABC, metaclass=HarvesterMeta):
 
         Provided for implementation convenience.
         """
-        return schemas[self.Plugin.returns.name].Partial
+        ref = self.Plugin.returns  # (request for a schema of a certain version)
+        return schemas.get(ref.name, ref.version).Partial
 
     # ----
     # configuring and checking harvester instances:
@@ -217,13 +218,13 @@ class PGHarvester(pg.PluginGroup[Harvester]):
         hv_ref = plugin.Plugin.returns
 
         schema_name = hv_ref.name
-        schema = schemas[schema_name]
-        if not schema:
+        if schema_name not in schemas:
             raise TypeError(f"{ep_name}: Schema '{schema_name}' not installed!")
 
-        inst_ref = schema.Plugin.ref()
-        if not inst_ref.supports(hv_ref):
-            msg = f"{ep_name}: Installed schema {inst_ref} incompatible with harvester schema {hv_ref}!"
+        # newest installed version that supports the requested one
+        if schemas.resolve(schema_name, hv_ref.version) is None:
+            inst_refs = list(map(str, schemas.versions(schema_name)))
+            msg = f"{ep_name}: Installed schemas {inst_refs} incompatible with harvester schema {hv_ref}!"
             raise TypeError(msg)
 
     @overrides
